@@ -89,6 +89,8 @@ class Walker:
             "seen[o] = true return false end")
         self.lookup = L.eval("function(t, o) return t[o] end")
         self.setk = L.eval("function(t, o, v) t[o] = v end")
+        self.lua_index = L.eval("function(o, k) return o[k] end")
+        self.lua_pcall = L.globals()["pcall"]
         self.getmt = L.globals()["getmetatable"]
         self.rawget = L.globals()["rawget"]
         self.ltype = L.globals()["type"]
@@ -170,6 +172,22 @@ class Walker:
         # which the loop below follows
         if not allowed_callable and not isinstance(o, BaseException):
             self.violations.append(("python-object", tname, path))
+        # the runtime's attribute filter itself, exercised from the Lua side:
+        # no underscore attribute of any reachable Python object may be
+        # readable
+        for dunder in ("__class__", "__globals__", "__dict__", "__self__",
+                       "__closure__", "__code__", "__func__", "__init__",
+                       "__reduce__", "__module__", "__traceback__",
+                       "__builtins__", "_sa_instance_state", "_Wtp__x"):
+            try:
+                r = self.lua_pcall(self.lua_index, o, dunder)
+            except Exception:
+                continue
+            if isinstance(r, tuple) and r and r[0] and len(r) > 1 and \
+                    r[1] is not None:
+                self.violations.append(
+                    ("attribute-filter-bypass", tname + "." + dunder, path))
+                break
         # what a module can get out of it: every attribute the runtime's
         # attribute filter lets through, and items of containers
         for a in dir(o):
@@ -403,6 +421,10 @@ ATTACKS = {
     "loaddata-host": 'local ok, d = pcall(_new_loadData, "io"); return tostring(ok) .. tostring(d and d.open)',
     "frame-args-internals": 'return tostring(rawget(frame.args, "_orig")) .. tostring(frame.args._frame)',
     "frame-callable-attrs": 'return tostring(frame.preprocess.__globals__) .. tostring(frame.callParserFunction.__closure__)',
+    "dunder-globals": 'local g = frame.preprocess.__globals__; return "DUNDER:" .. tostring(g ~= nil)',
+    "dunder-class": 'local c = frame.getTitle.__class__; return "DUNDER:" .. tostring(c ~= nil)',
+    "dunder-closure": 'local c = frame.expandTemplate.__closure__; return "DUNDER:" .. tostring(c ~= nil)',
+    "dunder-tuple-class": 'local t = rawget(frame.args, "_orig")[1]; local c = t.__class__; return "DUNDER:" .. tostring(c ~= nil)',
     "debug-getupvalue": 'return tostring(debug.getupvalue) .. tostring(debug.getregistry) .. tostring(debug.sethook)',
     "setfenv-escape": 'return tostring(setfenv) .. tostring(getfenv)',
     "reset-env": 'local e = _lua_reset_env(); return tostring(e.io) .. tostring(e.os and e.os.execute)',
@@ -568,6 +590,10 @@ def is_capability_text(o):
 PROBE_RETURNS = {
     # attack name -> substring that shows a host capability was obtained
     "require-G": "function",
+    "dunder-globals": "DUNDER:true",
+    "dunder-class": "DUNDER:true",
+    "dunder-closure": "DUNDER:true",
+    "dunder-tuple-class": "DUNDER:true",
     "cached-mod-upper-io": "function",
     "require-package-loadlib": "function",
     "require-python": "function",
